@@ -200,8 +200,10 @@ pub mod shims {
             if ok { 0 } else { -1 }
         }
         pub unsafe fn mprotect(addr: *mut c_void, len: usize, prot: c_int) -> c_int {
-            os("mprotect", addr as u64, len as u64, json!({"prot":prot}));
-            0
+            // as the kernel: EINVAL for an address that is not page-aligned
+            let ok = (addr as u64) & 0xfff == 0;
+            os("mprotect", addr as u64, len as u64, json!({"prot":prot,"ok":ok}));
+            if ok { 0 } else { -1 }
         }
         pub unsafe fn pthread_jit_write_protect_np(enabled: c_int) {
             os("jit_write_protect", arena_base(), 0, json!({"enabled":enabled}));
